@@ -614,6 +614,10 @@ fn c11_pass(sink: &mut Sink, rng: &mut Rng, thorough: bool) {
       Some(r) => r.iter().map(|(a, b)| format!("{}-{}", a, b)).collect::<Vec<_>>().join(","),
       None => "unreadable".to_string(),
     };
+    // span and number of ranges (what the FITS writer declares in NAXIS2)
+    sink.emit(&format!("st_span {}", txt), &format!("{}|{}|{}",
+      moc2.min_index_left().map(|x| x.to_string()).unwrap_or("_".into()),
+      moc2.max_index_left().map(|x| x.to_string()).unwrap_or("_".into()), moc2.compute_n_ranges()), nontrivial);
     // writer rows = model rows
     sink.emit(&format!("st_fits_enc 64 {}", txt), &rows_txt, nontrivial);
     {
